@@ -78,6 +78,12 @@ func (rs *ruleset) do(name, body string, oracle func(o *oenv, s *site) string) {
 	rs.groups = append(rs.groups, &group{name: "d_" + name, kind: 'd', doFn: f, ostr: oracle})
 }
 
+// do2 registers a Do group on the two-variable sites `{ probe2($x, $y) }`.
+func (rs *ruleset) do2(name, body string, oracle func(o *oenv, s *site) string, sugg func(o *oenv, s *site) string) {
+	f := rs.doFn("f_"+name, body)
+	rs.groups = append(rs.groups, &group{name: "d_" + name, kind: 'd', two: true, doFn: f, ostr: oracle, osugg: sugg})
+}
+
 func (rs *ruleset) source() string {
 	var sb strings.Builder
 	sb.WriteString("package gorules\n\nimport (\n\t\"github.com/quasilyte/go-ruleguard/dsl\"\n\t\"github.com/quasilyte/go-ruleguard/dsl/types\"\n)\n\n")
@@ -923,5 +929,6 @@ if types.Implements(t, i) {
 		ostr:  func(o *oenv, s *site) string { return s.Text2 + " <- " + s.Text },
 		osugg: func(o *oenv, s *site) string { return s.T2.String() + " <- " + s.T.String() }})
 
+	buildHoldRules(rs)
 	return rs
 }
